@@ -19,9 +19,27 @@ pub enum Case {
     Html(TreeCase),
     Xml { chunks: Vec<String> },
     /// like Html/Xml, but a "script" runs at every script pause: action k detaches the
-    /// k-th ancestor of the script element from its parent (0 = nothing)
+    /// k-th ancestor of the script element from its parent (0 = nothing); k >= 16 encodes a set of
+    /// ancestors (bit i of k-16 = ancestor i+1), each detached from its parent
     HtmlScripted { tree: TreeCase, actions: Vec<u8> },
     XmlScripted { chunks: Vec<String>, actions: Vec<u8> },
+    /// tokens handed directly to xml5ever's tree builder through its public TokenSink
+    /// interface (a collection after every token, scripts as above), then end()
+    XmlTokens { toks: Vec<XTok>, actions: Vec<u8> },
+}
+
+#[derive(Serialize, Deserialize, Clone, Debug, Hash, PartialEq, Eq)]
+pub enum XTok {
+    Start(String),
+    Empty(String),
+    End(String),
+    Short,
+    Chars(String),
+    Comment,
+    Pi,
+    Doctype,
+    Nul,
+    Eof,
 }
 
 struct Collect(RefCell<Vec<Id>>);
@@ -38,36 +56,41 @@ fn run_script(dom: &ModelDom, script: Id, action: u8) -> bool {
     if action == 0 {
         return false;
     }
-    let target = {
+    // ancestors of the script element, nearest first
+    let chain: Vec<Id> = {
         let nodes = dom.nodes.borrow();
+        let mut v = vec![];
         let mut cur = script;
-        let mut ok = true;
-        for _ in 0..action {
-            match nodes[cur].parent {
-                Some(p) => cur = p,
-                None => {
-                    ok = false;
-                    break;
-                },
+        while let Some(p) = nodes[cur].parent {
+            v.push(p);
+            cur = p;
+            if v.len() > 64 {
+                break;
             }
         }
-        // not the document, not a direct child of the document (root element)
-        if ok && cur != DOC && nodes[cur].parent.map(|p| p != DOC).unwrap_or(false) {
-            Some(cur)
-        } else {
-            None
-        }
+        v
     };
-    match target {
-        Some(t) => {
+    // action < 16: the action-th ancestor; otherwise a set: bit i of (action - 16) = ancestor i+1
+    let wanted: Vec<usize> = if action < 16 {
+        vec![action as usize]
+    } else {
+        (0..8).filter(|i| ((action - 16) >> i) & 1 == 1).map(|i| i + 1).collect()
+    };
+    let mut any = false;
+    for k in wanted {
+        let Some(&t) = chain.get(k - 1) else { continue };
+        // not the document, not a direct child of the document (root element)
+        let ok = {
+            let nodes = dom.nodes.borrow();
+            t != DOC && nodes[t].parent.map(|p| p != DOC).unwrap_or(false)
+        };
+        if ok {
             use html5ever::tree_builder::TreeSink;
-            let before = dom.calls.get();
             dom.remove_from_parent(&t);
-            let _ = before;
-            true
-        },
-        None => false,
+            any = true;
+        }
     }
+    any
 }
 
 struct RunOut {
@@ -87,6 +110,7 @@ fn run_case(case: &Case, gc: bool) -> RunOut {
     let (actions, html): (Vec<u8>, bool) = match case {
         Case::HtmlScripted { actions, .. } => (actions.clone(), true),
         Case::XmlScripted { actions, .. } => (actions.clone(), false),
+        Case::XmlTokens { actions, .. } => (actions.clone(), false),
         Case::Html(_) => (vec![], true),
         Case::Xml { .. } => (vec![], false),
     };
@@ -97,6 +121,55 @@ fn run_case(case: &Case, gc: bool) -> RunOut {
             actions[n % actions.len()]
         }
     };
+    if let Case::XmlTokens { toks, .. } = case {
+        use markup5ever::{LocalName, Namespace, QualName};
+        use xml5ever::tokenizer::{Doctype, Pi, ProcessResult, Tag, TagKind, Token, TokenSink};
+        use xml5ever::tree_builder::XmlTreeBuilder;
+        let tb = XmlTreeBuilder::new(ModelDom::new(), Default::default());
+        let qn = |n: &str| QualName::new(None, Namespace::from(""), LocalName::from(n));
+        let tag = |kind: TagKind, n: &str| Token::Tag(Tag { kind, name: qn(n), attrs: vec![] });
+        for t in toks {
+            let token = match t {
+                XTok::Start(n) => tag(TagKind::StartTag, n),
+                XTok::Empty(n) => tag(TagKind::EmptyTag, n),
+                XTok::End(n) => tag(TagKind::EndTag, n),
+                XTok::Short => tag(TagKind::ShortTag, ""),
+                XTok::Chars(c) => Token::Characters(tendril::StrTendril::from(c.as_str())),
+                XTok::Comment => Token::Comment(tendril::StrTendril::from("c")),
+                XTok::Pi => Token::ProcessingInstruction(Pi { target: "t".into(), data: "d".into() }),
+                XTok::Doctype => Token::Doctype(Doctype { name: Some("r".into()), public_id: None, system_id: None }),
+                XTok::Nul => Token::NullCharacter,
+                XTok::Eof => Token::EndOfFile,
+            };
+            let handle = match tb.process_token(token) {
+                ProcessResult::Script(h) => Some(h),
+                _ => None,
+            };
+            if let Some(h) = handle {
+                let a = action_at(pause_no.get());
+                pause_no.set(pause_no.get() + 1);
+                if run_script(&tb.sink, h, a) {
+                    detached.set(detached.get() + 1);
+                }
+            }
+            if gc {
+                let tracer = Collect(RefCell::new(vec![]));
+                tb.trace_handles(&tracer);
+                let mut roots = tracer.0.into_inner();
+                roots.push(DOC);
+                if let Some(h) = handle {
+                    roots.push(h);
+                }
+                let (c, m) = tb.sink.collect(&roots);
+                collected.set(collected.get() + c);
+                mattered.set(mattered.get() + m);
+                collections.set(collections.get() + 1);
+            }
+        }
+        tb.end();
+        let dom = tb.sink;
+        return RunOut { dom, collections: collections.get(), collected: collected.get(), mattered: mattered.get(), detached: detached.get() };
+    }
     let dom = if html {
         let tc = match case {
             Case::Html(tc) => tc,
@@ -213,6 +286,7 @@ pub fn check(case: &Case, st: &mut Stats) -> Result<(), String> {
             Case::Xml { .. } => "xml: a traced handle was disconnected from the document",
             Case::HtmlScripted { .. } => "html+script: a traced handle was disconnected from the document",
             Case::XmlScripted { .. } => "xml+script: a traced handle was disconnected from the document",
+            Case::XmlTokens { .. } => "xml tokens: a traced handle was disconnected from the document",
         });
         st.nontrivial(hash64(case), || serde_json::to_value(case).unwrap());
     }
@@ -220,6 +294,33 @@ pub fn check(case: &Case, st: &mut Stats) -> Result<(), String> {
 }
 
 pub fn decode(s: &mut Src) -> Case {
+    if s.chance(24) {
+        // hand-fed tokens: also sequences the XML tokenizer never produces (NullCharacter,
+        // tokens after EndOfFile, end tags without start tags)
+        let n = s.range(1, 14);
+        let mut toks = vec![];
+        for _ in 0..n {
+            let name = s.pick(&["a", "b", "script", "c"]).to_string();
+            toks.push(match s.weighted(&[10, 4, 6, 2, 5, 2, 1, 1, 2, 2, 6]) {
+                0 => XTok::Start(name),
+                1 => XTok::Empty(name),
+                2 => XTok::End(name),
+                3 => XTok::Short,
+                4 => XTok::Chars(s.pick(&["t", " ", "xy"]).to_string()),
+                5 => XTok::Comment,
+                6 => XTok::Pi,
+                7 => XTok::Doctype,
+                8 => XTok::Nul,
+                9 => XTok::Eof,
+                _ => XTok::Start("script".into()),
+            });
+            if matches!(toks.last(), Some(XTok::Start(n)) if n == "script") && s.chance(200) {
+                toks.push(XTok::End("script".into()));
+            }
+        }
+        let actions = (0..3).map(|_| if s.chance(80) { 16 + s.below(32) as u8 } else { s.below(4) as u8 }).collect();
+        return Case::XmlTokens { toks, actions };
+    }
     if s.chance(40) {
         // XML with script elements and a detaching script
         let d = gxml::gen_xml(s, 10);
@@ -235,7 +336,7 @@ pub fn decode(s: &mut Src) -> Case {
         }
         let n = text.chars().count();
         let cuts = chunks::gen_cuts(s, n);
-        let actions = (0..3).map(|_| s.below(4) as u8).collect();
+        let actions = (0..3).map(|_| if s.chance(80) { 16 + s.below(32) as u8 } else { s.below(4) as u8 }).collect();
         return Case::XmlScripted { chunks: chunks::chunk_str(&text, &cuts), actions };
     }
     if s.chance(60) {
@@ -250,7 +351,7 @@ pub fn decode(s: &mut Src) -> Case {
         let n = tc.input.chars().count();
         let cuts = chunks::gen_cuts(s, n);
         tc.chunks = chunks::chunk_str(&tc.input, &cuts);
-        let actions = (0..3).map(|_| s.below(5) as u8).collect();
+        let actions = (0..3).map(|_| if s.chance(100) { 16 + s.below(64) as u8 } else { s.below(5) as u8 }).collect();
         return Case::HtmlScripted { tree: tc, actions };
     }
     if s.chance(30) {
@@ -279,7 +380,7 @@ pub fn decode(s: &mut Src) -> Case {
 
 pub fn run(ctx: &Ctx) -> Report {
     let mut rep = Report::new(
-        "Grammar-generated HTML (documents and fragments under ~50 contexts; biased to adoption agency, frameset replacing a body that holds formatting/form elements, foster parenting, templates, never-inserted context elements) and XML, fed one character per chunk (so a collection runs at every possible suspension point, incl. Script and EncodingIndicator returns) into ModelDom in GC mode: after every feed() return the harness calls trace_handles, takes roots = traced handles + the document + the script element just handed to the caller, closes them under DOM connectedness (parent, children, template contents <-> host) and marks every other node collected. A simulated script runs at script pauses in the 'scripted' cases: it detaches the k-th ancestor of the script element from its parent (both in the collecting and in the GC-free run), so that open elements, formatting elements and pointers the builder still needs are no longer connected to the document. Oracle: no later sink call receives a collected handle (incl. same_node/elem_name), and the final tree equals the tree of a GC-free run. Non-trivial: at some collection a traced handle was not connected to the document (tracing mattered); distinct by case hash.",
+        "Grammar-generated HTML (documents and fragments under ~50 contexts; biased to adoption agency, frameset replacing a body that holds formatting/form elements, foster parenting, templates, never-inserted context elements) and XML (also as hand-fed token sequences straight into xml5ever's tree builder, incl. NullCharacter and tokens after EndOfFile), fed one character per chunk (so a collection runs at every possible suspension point, incl. Script and EncodingIndicator returns) into ModelDom in GC mode: after every feed() return the harness calls trace_handles, takes roots = traced handles + the document + the script element just handed to the caller, closes them under DOM connectedness (parent, children, template contents <-> host) and marks every other node collected. A simulated script runs at script pauses in the 'scripted' cases: it detaches the k-th ancestor of the script element, or a set of its ancestors, each from its own parent (both in the collecting and in the GC-free run), so that open elements, formatting elements and pointers the builder still needs are no longer connected to the document. Oracle: no later sink call receives a collected handle (incl. same_node/elem_name), and the final tree equals the tree of a GC-free run. Non-trivial: at some collection a traced handle was not connected to the document (tracing mattered); distinct by case hash.",
     );
     report_known(ctx, &mut rep, &|v| replay(&ctx.strict_clone(), v));
     run_regressions(ctx, &mut rep, &|v| replay(&ctx.strict_clone(), v));
